@@ -156,6 +156,12 @@ class Proxy:
     def __hash__(self): self._loud("hash()")
     def __reduce__(self): self._loud("pickle")
 
+    def __getattr__(self, k):
+        # a method of str/int/tuple that the proxy does not model: undecided, never program behaviour
+        if k.startswith("__") and k.endswith("__"):
+            raise AttributeError(k)
+        raise EngineUnsupported("%s.%s is not modelled" % (type(self).__name__, k))
+
 
 class SymBool(Proxy):
     __slots__ = ()
@@ -378,6 +384,8 @@ class SymInt(Proxy):
     def __eq__(self, o):
         if isinstance(o, (int, SymInt)) and not isinstance(o, bool):
             return SymBool(self.t == I(o))
+        if hasattr(type(o), "__vf_symbolic__") or (isinstance(o, Proxy) and z3.is_real(getattr(o, "t", None))):
+            return NotImplemented      # let the other symbolic number compare
         if isinstance(o, Proxy):
             self._loud("== with %s" % type(o).__name__)
         return False
@@ -385,6 +393,8 @@ class SymInt(Proxy):
     def __ne__(self, o):
         if isinstance(o, (int, SymInt)) and not isinstance(o, bool):
             return SymBool(self.t != I(o))
+        if hasattr(type(o), "__vf_symbolic__") or (isinstance(o, Proxy) and z3.is_real(getattr(o, "t", None))):
+            return NotImplemented
         if isinstance(o, Proxy):
             self._loud("!= with %s" % type(o).__name__)
         return True
